@@ -13,7 +13,7 @@ import re
 from hypothesis import strategies as st
 
 LIT_PIECES = ['a', 'b', 'ab', 'abc', 'c', '/', '/', '/', '/', '1', '12', '-', '.', 'é', '日', 'le', 'end', 'x', 'to', '_', 'A', '\\', 'a\\b', '\\.', '/a/a', '/ed/it/']
-NAMES = ['a', 'b', 'c', 'id', 'name', 'x', 'y', 'pth', 'user_1', '_p', 'N', 'query', 'self', 'args', 'kw', 'rule', 'method', 'path', 'anchor']       # (incl. names an API might use for its own keyword parameters)
+NAMES = ['a', 'b', 'c', 'id', 'name', 'x', 'y', 'pth', 'user_1', '_p', 'N', 'query', 'self', 'args', 'kw', 'rule', 'method', 'path', 'anchor', 'anon_id', 'anon', 'anon_0', '_anon']       # (incl. names an API might use for its own keyword parameters)
 RE_POOL = ['to.', '[a-c]+', r'\d{2}', '[^/]+', 'pro.+?(?=l)', '(?:ab)+', 'a|ab', '[0-9a-f]{1,3}', '.+', 'a*',
            r'-?\d+', r'-?\d+(\.\d+)?', r'\d+',
            # capturing groups that cover a part of the match, the whole match, repeat, or do not take part: the wildcard is bound to the whole match
